@@ -25,7 +25,7 @@ fn exec_line(ctx: &mut Ctx, line: &str) -> String {
     let prop = toks.next().unwrap_or("");
     let second = toks.next().unwrap_or("");
     match prop {
-        "c01" | "c06" => {
+        "c01" | "c04" | "c06" => {
             let (v, m) = parse_line(line);
             if second == "cfg" {
                 ctx.arr = None;
@@ -85,6 +85,7 @@ fn main() {
             let prop = a.rest.get(0).cloned().unwrap_or_default();
             match prop.as_str() {
                 "c01" => c01::generate(&a.tier, a.seed),
+                "c04" => c01::generate_c04(&a.tier, a.seed),
                 "c06" => c06::generate(&a.tier, a.seed),
                 "c19" => c19::generate(&a.tier, a.seed),
                 "c08" => c08::generate(&a.tier, a.seed),
